@@ -18,7 +18,7 @@
                           piece deeper than the 64-bit stack word) and 0 <= mv < 2^63 *)
 From Coq Require Import NArith ZArith List Bool Ascii String.
 Require Import Board Move GameOver PtnMove Playtak Tps TpsFacts TpsFacts2 TpsFacts3 TpsFacts4 TpsFacts5 TpsFacts6 TpsFacts7 TpsFacts8.
-Require Import Alloc Preserve1 Preserve5 Reach1 Generated.Consts TpsFacts9.
+Require Import Alloc Preserve1 Preserve5 Reach1 Generated.Consts TpsFacts9 Import1 Import3 Import7.
 Import ListNotations.
 
 (* Square layer: the text tpsSquare writes for one square parses back, through the stack branch of parseRow, to
@@ -139,6 +139,20 @@ Theorem C10_tps_round_trip_reachable : forall sz bwt ms p, (3 <= sz <= 8)%N -> n
     /\ to_move_white q = to_move_white p /\ Move.move q = Move.move p.
 Proof. exact tps_round_trip_reachable. Qed.
 Print Assumptions C10_tps_round_trip_reachable.
+
+(* Exact form (proofs in Import7.v over Import1.v/Import3.v, built on the theorems above): on a position satisfying the
+   Move invariant, with reserves matching the board and the default tie-break flag, ParseTPS (FormatTPS p) is p ITSELF. *)
+Theorem C10_tps_round_trip_exact : forall p, pos_ok p -> reserves_match_board p -> Move.black_wins_ties p = false ->
+  (0 <= Move.move p < 2 ^ 63)%Z -> parse_tps gen_basis (format_tps p) = Move.Ok p.
+Proof. exact tps_round_trip_exact. Qed.
+Print Assumptions C10_tps_round_trip_exact.
+
+(* "all well-formed boards with default piece counts": tak.FromSquares of every 3..8 board of At-shaped squares (stacks
+   up to 64 high) whose piece counts fit the default reserves round-trips to itself. *)
+Theorem C10_tps_round_trip_squares : forall n board mv, fit_board n board -> counts_fit n board -> (0 <= mv < 2 ^ 63)%Z ->
+  let p := from_squares gen_basis (N.of_nat n) board mv in parse_tps gen_basis (format_tps p) = Move.Ok p.
+Proof. exact tps_round_trip_squares. Qed.
+Print Assumptions C10_tps_round_trip_squares.
 
 (* Non-vacuity: a 5x5 position with a seven-high stack under a black capstone, a white wall on a black flat, a lone
    white capstone and empty runs of every length 1..5 satisfies all hypotheses above; its text is canonical. *)
